@@ -1610,6 +1610,58 @@ func posProblem(w *World, v ssa.Value, at *ssa.BasicBlock, depth int, trustDefau
 	if known(newRC().eval(v, at)) {
 		return ""
 	}
+	// a field of an options struct that a module function returned after normalising it:
+	// `o := options.withDefaults()` ... o.NumGoroutines
+	if ld, ok := v.(*ssa.UnOp); ok && ld.Op == token.MUL {
+		if fa, ok := ld.X.(*ssa.FieldAddr); ok {
+			if cell, ok := fa.X.(*ssa.Alloc); ok {
+				// the whole-struct store that reaches this load: all stores to the cell dominate the
+				// load (so they are ordered) and the field is not stored separately; the last one counts
+				var vals []ssa.Value
+				var last *ssa.Store
+				ordered := true
+				for _, ref := range referrersOf(cell) {
+					switch x := ref.(type) {
+					case *ssa.Store:
+						if x.Addr != ssa.Value(cell) {
+							continue
+						}
+						if !instrDominates(x, ld) {
+							ordered = false
+						}
+						if last == nil || instrDominates(last, x) {
+							last = x
+						}
+					case *ssa.FieldAddr:
+						if x.Field == fa.Field {
+							for _, r2 := range referrersOf(x) {
+								if _, isSt := r2.(*ssa.Store); isSt {
+									ordered = false
+								}
+							}
+						}
+					}
+				}
+				if ordered && last != nil {
+					vals = []ssa.Value{last.Val}
+				}
+				if len(vals) == 1 {
+					if c, ok := vals[0].(*ssa.Call); ok {
+						if g := c.Call.StaticCallee(); g != nil && w.inModule(g) && len(g.Blocks) > 0 && fieldNormalised(w, g, fa.Field, depth, trustDefault) {
+							return ""
+						}
+					}
+				}
+			}
+		}
+	}
+	if fl, ok := v.(*ssa.Field); ok {
+		if c, ok := fl.X.(*ssa.Call); ok {
+			if g := c.Call.StaticCallee(); g != nil && w.inModule(g) && len(g.Blocks) > 0 && fieldNormalised(w, g, fl.Field, depth, trustDefault) {
+				return ""
+			}
+		}
+	}
 	if p, ok := v.(*ssa.Parameter); ok && p.Parent() != nil && p.Parent().Object() != nil && !p.Parent().Object().Exported() {
 		// a parameter of a private function is what its call sites pass
 		idx := -1
@@ -1671,4 +1723,84 @@ func ruleDEFPOS(w *World, r *Report) {
 		}
 	}
 	r.floor("DEFPOS", "returns of the default-count functions", n, 2)
+}
+
+// fieldNormalised: g returns a struct (a parameter or receiver it copied) whose integer field
+// number `field` is >= 1 at every return: g contains `if s.f <= 0 { s.f = V }` (or `< 1`) with V
+// known >= 1, that If dominates every return, and nothing else in g stores to the field.
+func fieldNormalised(w *World, g *ssa.Function, field int, depth int, trustDefault bool) bool {
+	var rets []*ssa.Return
+	for _, b := range g.Blocks {
+		if ret, ok := b.Instrs[len(b.Instrs)-1].(*ssa.Return); ok {
+			rets = append(rets, ret)
+		}
+	}
+	if len(rets) == 0 {
+		return false
+	}
+	// the struct returned: a load of one local cell in every return
+	var cell *ssa.Alloc
+	for _, ret := range rets {
+		if len(ret.Results) < 1 {
+			return false
+		}
+		ld, ok := ret.Results[0].(*ssa.UnOp)
+		if !ok || ld.Op != token.MUL {
+			return false
+		}
+		a, ok := ld.X.(*ssa.Alloc)
+		if !ok || (cell != nil && a != cell) {
+			return false
+		}
+		cell = a
+	}
+	var stores []*ssa.Store
+	for _, b := range g.Blocks {
+		for _, in := range b.Instrs {
+			st, ok := in.(*ssa.Store)
+			if !ok {
+				continue
+			}
+			if fa, ok := st.Addr.(*ssa.FieldAddr); ok && fa.X == ssa.Value(cell) && fa.Field == field {
+				stores = append(stores, st)
+			}
+		}
+	}
+	if len(stores) != 1 {
+		return false
+	}
+	st := stores[0]
+	if posProblem(w, st.Val, st.Block(), depth+1, trustDefault) != "" {
+		return false
+	}
+	// the store sits on the edge `field <= 0` (or `< 1`) of an If that dominates every return
+	for _, f := range domFacts(st.Block()) {
+		for _, cm := range factCmps(f) {
+			if cm.Y == nil {
+				continue
+			}
+			ld, ok := stripAllConv(cm.X).(*ssa.UnOp)
+			if !ok || ld.Op != token.MUL {
+				continue
+			}
+			fa, ok := ld.X.(*ssa.FieldAddr)
+			if !ok || fa.X != ssa.Value(cell) || fa.Field != field {
+				continue
+			}
+			k, isC := constInt(cm.Y)
+			if !isC || !((cm.Op == token.LEQ && k == 0) || (cm.Op == token.LSS && k == 1)) {
+				continue
+			}
+			all := true
+			for _, ret := range rets {
+				if !instrDominates(f.If, ret) {
+					all = false
+				}
+			}
+			if all {
+				return true
+			}
+		}
+	}
+	return false
 }
